@@ -187,7 +187,14 @@ func newDecoratorController(resources *dynamicdiscovery.ResourceMap, dynClient *
 		if err != nil {
 			return nil, fmt.Errorf("can't parse parent resource groupVersion: %w", err)
 		}
-		c.parentInformers.Set(groupVersion.WithResource(parent.Resource), informer)
+		parentGVR := groupVersion.WithResource(parent.Resource)
+		if c.parentInformers.Get(parentGVR) != nil {
+			// The same resource is listed twice: keep a single subscription,
+			// otherwise the first one would be overwritten and never closed.
+			informer.Close()
+			continue
+		}
+		c.parentInformers.Set(parentGVR, informer)
 	}
 
 	for _, child := range dc.Spec.Attachments {
@@ -199,7 +206,13 @@ func newDecoratorController(resources *dynamicdiscovery.ResourceMap, dynClient *
 		if err != nil {
 			return nil, fmt.Errorf("can't parse child resource groupVersion: %w", err)
 		}
-		c.childInformers.Set(groupVersion.WithResource(child.Resource), informer)
+		childGVR := groupVersion.WithResource(child.Resource)
+		if c.childInformers.Get(childGVR) != nil {
+			// The same resource is listed twice: keep a single subscription.
+			informer.Close()
+			continue
+		}
+		c.childInformers.Set(childGVR, informer)
 	}
 
 	return c, nil
